@@ -5,11 +5,16 @@ Theorems about `markInvalid` / `markNotInvalid` / `processHeader` / `save` / `lo
 for every repository state. What is proved here: a marked hash can never be (re-)added, marking is
 idempotent and pre-empts unknown hashes without touching the chain, the trim removes the marked
 header from the lookups of its branch, unmarking lifts the refusal, and the mark survives Save/Load
-(merged with the configured hashes). The global statements "no descendant stays on the best chain"
-and "the tip falls back to the heaviest remaining chain" are carried by the correspondence + monitor
-(see `C17_excluded_partial` for what is proved of them).
+(merged with the configured hashes). For every state reached by submissions from genesis
+(`C17_marked_excluded`): after marking a held header, the chain of NO tracked branch — in particular
+the reported best chain — passes through it (so neither it nor anything built on it is reported),
+and the reported tip is a branch of maximal accumulated work among the remaining ones. After
+maintenance operations (Clean/Save/Load before the mark) the same is carried by the correspondence
++ monitor; marks at or below the in-memory window are the known finding.
 -/
 import BRV.Proofs.RepoBasics
+import BRV.Proofs.RepoTrim
+import BRV.Proofs.RepoExample
 
 namespace BRV.Repo
 
@@ -102,6 +107,46 @@ theorem C17_unknown_mark (r : Repo) (id : Nat) (hnew : r.invalid.contains id = f
   simp only [markInvalid, hnew, Bool.false_eq_true, ↓reduceIte, hfind]
   simp [saveInvalid, Repo.emit, Store.apply]
 
+/-- **C17 (the marked header and everything built on it are excluded; fall back to the heaviest
+    remaining chain).** In every state reached by submissions from genesis: after `MarkHeaderInvalid`
+    of a held header succeeded, (1) the chain of no tracked branch contains the marked header — a
+    header built on it has it in its ancestry, so no such header is on a tracked chain either —, in
+    particular (2) the reported best chain does not; (3) the reported tip is a tracked branch whose
+    accumulated work is maximal among all remaining tracked branches. -/
+theorem C17_marked_excluded (r : Repo) (hs : StreamWF r) (id bi0 : Nat) (h : Int)
+    (hnew : r.invalid.contains id = false) (hf : r.branchesFind id = some (bi0, h))
+    (hok : (markInvalid r id).2 = none) :
+    (∀ x ∈ (markInvalid r id).1.branches, ∀ (k : Int) (d : HData),
+        atH (markInvalid r id).1.arena x k = some d → d.hdr.id ≠ id) ∧
+    (markInvalid r id).1.longest ∈ (markInvalid r id).1.branches ∧
+    (∃ wl, lastWork (markInvalid r id).1.arena (markInvalid r id).1.longest = some wl ∧
+      ∀ b ∈ (markInvalid r id).1.branches, ∃ w, lastWork (markInvalid r id).1.arena b = some w ∧ w ≤ wl) := by
+  have hheld := branchesFind_owner r hs.chain.wf.link hs.chain.wf.ids hs.chain.wf.list id bi0 h hf
+  have hs1 : StreamWF (saveInvalid { r with invalid := r.invalid ++ [id] }) := by
+    refine streamWF_congr r _ ?_ ?_ ?_ hs <;> rfl
+  have hfind : (saveInvalid { r with invalid := r.invalid ++ [id] }).branchesFind id = some (bi0, h) := hf
+  unfold markInvalid at hok ⊢
+  simp only [hnew, Bool.false_eq_true, ↓reduceIte, hfind] at hok ⊢
+  cases ht : trim (saveInvalid { r with invalid := r.invalid ++ [id] }) bi0 h with
+  | error e => rw [ht] at hok; cases hok
+  | ok r2 =>
+    rw [ht] at hok
+    simp only at hok ⊢
+    cases hlg : longestOf r2.arena r2.branches with
+    | none => rw [hlg] at hok; cases hok
+    | some lg =>
+      simp only
+      obtain ⟨hmem, hmax⟩ := longestOf_spec _ _ _ hlg
+      exact ⟨trim_excludes _ hs1 bi0 id h hheld r2 ht, hmem, hmax⟩
+
+/-- the best chain in particular: no height of the reported chain returns the marked header. -/
+theorem C17_best_chain_excludes (r : Repo) (hs : StreamWF r) (id bi0 : Nat) (h : Int)
+    (hnew : r.invalid.contains id = false) (hf : r.branchesFind id = some (bi0, h))
+    (hok : (markInvalid r id).2 = none) (k : Int) (d : HData)
+    (hd : atH (markInvalid r id).1.arena (markInvalid r id).1.longest k = some d) : d.hdr.id ≠ id := by
+  obtain ⟨hex, hmem, _⟩ := C17_marked_excluded r hs id bi0 h hnew hf hok
+  exact hex _ hmem k d hd
+
 /-- **C17 (unmarking makes the header acceptable again).** After `MarkHeaderNotInvalid` the hash is
     no longer in the list (duplicate-free list, which `MarkHeaderInvalid` maintains), so the invalid
     rule no longer refuses it. -/
@@ -160,5 +205,21 @@ theorem C17_save_writes_list (r : Repo) : (saveInvalid r).store.invalid = some r
 example : (markInvalid {} 5).1.invalid = [5] := by decide
 example : (markNotInvalid (markInvalid {} 5).1 5).invalid = [] := by decide
 example : mergedInvalid { invalid := some [3, 4] } { cfgInvalid := [4, 9] } = [3, 4, 9] := by decide
+
+/-- the hypotheses of `C17_marked_excluded` are met: genesis plus one accepted header, which is then marked. -/
+example : StreamWF (processHeader genesisRepo { id := 1, prev := 0, bits := 0x1d00ffff, time := 2 } true).1 := by
+  apply streamWF_processHeader genesisRepo _ true genesisRepo_streamWF
+  intro pb ph lst hp
+  have : precheck genesisRepo { id := 1, prev := 0, bits := 0x1d00ffff, time := 2 } true
+      = .inr (0, 0, { hdr := { id := 0, prev := 99, bits := 0x1d00ffff, time := 1 }, work := 4295032833 }) := by decide
+  rw [this] at hp
+  simp only [Sum.inr.injEq, Prod.mk.injEq] at hp
+  obtain ⟨rfl, rfl, rfl⟩ := hp
+  decide
+
+example : (processHeader genesisRepo { id := 1, prev := 0, bits := 0x1d00ffff, time := 2 } true).1.branchesFind 1 = some (0, 1) ∧
+    (markInvalid (processHeader genesisRepo { id := 1, prev := 0, bits := 0x1d00ffff, time := 2 } true).1 1).2 = none ∧
+    (markInvalid (processHeader genesisRepo { id := 1, prev := 0, bits := 0x1d00ffff, time := 2 } true).1 1).1.longest = 0 := by
+  decide
 
 end BRV.Repo
